@@ -151,7 +151,8 @@ pub fn guarded<T, F: FnOnce() -> T>(f: F) -> Result<T, String> {
 
 // ---------------------------------------------------------------- C20
 fn points() -> Vec<u32> {
-    vec![0, 1, 2, 5, 6, 7, 9, 10, 11, 30, MAXC - 2, MAXC - 1, MAXC]
+    // small values, the surrogate block (legal SMT-LIB characters that are not Rust chars) and the top of the alphabet
+    vec![0, 1, 2, 5, 6, 7, 9, 10, 11, 30, 0xD7FF, 0xD800, 0xDABC, 0xDFFF, 0xE000, MAXC - 2, MAXC - 1, MAXC]
 }
 
 fn intervals(pts: &[u32]) -> Vec<(u32, u32)> {
